@@ -184,7 +184,7 @@ Theorem parse_generic_tokens : forall {R} required min_tokens
         else row (accessor hdr tokens) (accessor_guarded hdr tokens)) rows)).
 Proof.
   intros R required min_tokens row hdr rows Hh Hr.
-  unfold parse_generic, table_text.
+  unfold parse_generic_with, table_text.
   rewrite file_lines_unlines.
   2:{ constructor; [apply clean_row_line; exact Hh|].
       apply Forall_forall. intros l Hl. apply in_map_iff in Hl as [r [<- Hr']].
